@@ -21,6 +21,7 @@ EXTENDS Stripes, TLC, Json
 CONSTANTS MaxN,        \* operators in the cascade (2..MaxN)
           MaxH,        \* OFM height of the first operator (1..MaxH)
           Kernels, Strides, Dilations,
+          EmitCases,   \* TRUE: print every geometry of the lattice (<<"CASE", json>>) for replay on the real code
           Shrink       \* 0 = Vela's formula; n > 0 = negative control: buffer of (consumer stripe input height - n) rows
 
 VARIABLES g,           \* geometry of the cascade, constant along a behaviour (see MkGeo)
@@ -97,6 +98,7 @@ NoEarlyOverwrite ==
    replays each of them on the REAL code, whose recorded events are the verdict *)
 GeoTuple == <<g.O[1], [i \in 1..(g.n - 1) |-> <<g.p[i + 1].k, g.p[i + 1].d, g.p[i + 1].s, g.p[i + 1].pt>>], g.h[g.n]>>
 Candidates == NoEarlyOverwrite \/ PrintT(<<"CAND", ToJson(GeoTuple)>>)
+Cases == (EmitCases /\ \A i \in 1..g.n : done[i] = 0) => PrintT(<<"CASE", ToJson(GeoTuple)>>)
 (* the two-tile addressing of a stripe's IFM box needs the box to be no taller than the buffer *)
 BoxFitsBuffer == \A i \in 2..g.n : \A a \in FutureStarts(i) : LET r == StripeAt(i, a) IN r.e - r.c <= g.bufh[i]
 (* the cascade never gets stuck before the last operator is complete *)
